@@ -301,6 +301,7 @@ STR_MISMATCH_PROPS = {
     ("strmodel", "panics"): ["C14"],
     ("strmodel", "bytes"): ["C14"],
     ("strmodel", "lossy"): ["C14"],
+    ("strmodel", "lossy_spec_vs_std"): ["C14"],
     ("strmodel", "from_utf8"): ["C14"],
 }
 STR_PROPS = ["C14"]
